@@ -327,6 +327,43 @@ def c17(tier):
 EXTRA_TOKENS = [';', ')', 'end', 'begin', '(', 'let', '=', '<-', 'else', '.', '99999999999', '-', 'this', 'print', 'function', '+', 'then', ',', '[', ']', 'object', 'extends', '->', 'null', '"s"', 'array', 'while', 'do', '-1', 'if']
 
 
+# lexical and grammatical edge texts (judged from their code points by FMLLexer + FMLParser; most are NOT programs)
+EDGE_SNIPPETS = [
+    # identifiers that begin or end like keywords / literals; keywords glued to digits and underscores
+    'iffy', 'endx', 'xend', 'nullable', 'truex', 'falsey', 'printx', 'array1', 'object_', 'thisx', 'this', 'letx', 'beginx', 'dox', 'whiley', 'thenx', 'elsex', 'functionx', 'extendsx',
+    '_', '__', '_1', 'a1b2', 'A', 'Z_9', 'null1', 'true_', 'if1', 'end_', 'If', 'NULL', 'True',
+    # numbers and the minus sign
+    '0', '-0', '00', '007', '-007', '2147483647', '2147483648', '-2147483648', '-2147483649', '99999999999999999999', '1-1', '1 -1', '1 - 1', '1- 1', 'a-1', 'a -1', 'a - 1', '- 1', '-a', '- a',
+    '--1', '1--1', '1 - -1', 'a<-1', 'a< -1', 'a <- 1', 'a<--1', 'a<=-1', 'a==-1', 'a!=-1', 'a>=-1', 'a>-1', 'a->b', 'f(-1)', 'a[-1]', 'a[0]-1', 'a.b-1', '1.2', '1 . 2', '1e3', '0x10', '1_000', '1a', '1 a',
+    # operators and punctuation
+    'a=b', 'a==b', 'a===b', 'a<==b', 'a!b', 'a!=b', 'a!==b', 'a|b', 'a||b', 'a&b', 'a&&b', 'a<b<c', 'a<=b', 'a=<b', 'a<>b', 'a><b', 'a%b', 'a%%b', 'a**b', 'a//b', 'a/ /b', 'a/b/c', 'a+', '+a', 'a+*b', '(a', 'a)', '()', '(())', '((a))', 'a b', 'a;', ';a', 'a;;b', ';', ';;',
+    # strings
+    '""', '"a"', '"\\n\\t\\r\\\\\\"~"', '"\\a"', '"\\"', '"\\', '"', '"a', 'a"', '"a""b"', '"a" "b"', '"/* not a comment */"', '"// not a comment"', "'a'", '"é世😀"', '"\\~"', '"~"',
+    # comments
+    '/**/', '/***/', '/*/', '/* /* */ */', '/* a */ 1 /* b */', '1 // c', '1 // c\n', '// c', '/* unterminated', '*/', '/ * a * /', '1 /* \n */ + /* // */ 2', '1 // /* \n + 2 // */', '/*é*/1', '1/**/2', '1/**/+/**/2',
+    # blocks, objects, arrays, functions, control
+    'begin end', 'begin ; end', 'begin 1 end', 'begin 1; end', 'begin 1;; end', 'begin 1; 2 end', 'beginend', 'begin 1 end end', 'begin begin end', 'object begin end', 'object begin ; end', 'object extends a begin end',
+    'object extends a begin let b = 1 end', 'object begin let b = 1; end', 'object begin let b = 1; function m() -> 1 end', 'object begin function m() -> 1; let b = 1; end', 'object begin 1 end', 'object begin b <- 1 end',
+    'object extends begin end', 'object extends a b begin end', 'object begin function +(o) -> 1; function ==(o) -> 2; function <=(o) -> 3 end', 'object begin function get(i) -> 1; function set(i, v) -> 2 end',
+    'array(1, 2)', 'array(1)', 'array(1, 2, 3)', 'array()', 'array (1, 2)', 'array(1, 2,)', 'array 1', 'function f() -> 1', 'function f(a) -> a', 'function f(a,) -> a', 'function f(a b) -> a', 'function f(a, a) -> a',
+    'function f -> 1', 'function () -> 1', 'function f() 1', 'function f() -> ', 'function +(a) -> a', 'function f() -> function g() -> 1', 'let f = function g() -> 1', 'f()', 'f(1)', 'f(1,)', 'f(,1)', 'f(1 2)', 'f (1)', 'f()()', 'a.f()', 'a.f', 'a.f.g', 'a.f().g', 'a.f()()', 'a.+(1)', 'a.==(1)', 'a.<-(1)',
+    'a.1', 'a.', '.a', 'a..b', 'a[1]', 'a[1][2]', 'a[]', 'a[1,2]', 'a[1] <- 2', 'a.b <- 2', 'a.b.c <- 2', 'a.f() <- 2', 'a[1].b <- 2', 'a.b[1] <- 2', '1 <- 2', 'a <- b <- 1', 'a + b <- 1', 'f() <- 1',
+    'let a = 1', 'let a', 'let = 1', 'let a = ', 'let a = let b = 1', 'let a = b <- 1', 'let 1 = 1', 'let if = 1', 'let this = 1', 'let a = 1 + let b = 2', 'let a <- 1',
+    'if a then b', 'if a then b else c', 'if a then if b then c else d', 'if a b', 'if a then', 'if then b', 'if a then b else', 'if a then b else c else d', 'if a then b; c', 'if (a) then (b) else (c)', 'ifathenb',
+    'while a do b', 'while a b', 'while do b', 'while a do', 'while a do b; c', 'while a do begin b; c end', 'while a do while b do c', 'while a do let b = 1', 'while a do if b then c',
+    'print("a")', 'print("~", 1)', 'print("~" 1)', 'print("~", 1,)', 'print()', 'print(1)', 'print(a, 1)', 'print "a"', 'print("a", )', 'print ("a")', 'print("a")("b")', 'print("a").b', 'let p = print("a")',
+    'null', 'true', 'false', 'null.f()', 'true & false', 'null == null', 'null(1)', 'true.b', '1.f()', '1.+(2)', '(1).+(2)', '1 .f()', '"a".b',
+]
+EDGE_CONTEXTS = ['%s', 'let v = %s', 'print("~\\n", %s)', '%s; 1', 'begin %s end', 'f(%s)', '(%s)', 'if true then %s else 0']
+
+
+def edge_texts(rng, n):
+    cases = [('edge-text:%d:%d' % (i, j), c % s) for i, s in enumerate(EDGE_SNIPPETS) for j, c in enumerate(EDGE_CONTEXTS)]
+    rng.shuffle(cases)
+    alone = [('edge-text:%d:alone' % i, s) for i, s in enumerate(EDGE_SNIPPETS)]
+    return alone + cases[:n]
+
+
 def mutate_token_list(toks, rng):
     t = list(toks)
     if not t:
@@ -353,7 +390,7 @@ def c07(tier):
                 'and with whitespace / line-comment / block-comment (UTF-8) decorations at token boundaries, and parsed again. TLC (TraceParse) compares the trees and checks '
                 'InParserRange. Arbitrary token sequences (valid programs and 4 token-level mutations of each): the TLA+ grammar FMLParser (recursive descent over the whole language) says which '
                 'are programs and which tree they denote, the real parser must accept exactly those and return that tree (TraceParseTokens). Arbitrary text (corpus files, decorated and tightly spaced printings, character-level mutations) '
-                'is judged the same way from its code points alone by the TLA+ lexer + grammar (FMLLexer.ParseText, TraceParseText). distinct_nontrivial = distinct source texts parsed and judged.')
+                'is judged the same way from its code points alone by the TLA+ lexer + grammar (FMLLexer.ParseText, TraceParseText), as are some 300 lexical/grammatical edge snippets (keyword-like identifiers, minus signs, comment and string corner cases, trailing separators, malformed forms) in 8 contexts. distinct_nontrivial = distinct source texts parsed and judged.')
     exe = build('debug')
     wd = scratch('c07')
     r = tlc_or_die('MC_Syntax', workers=8, timeout=1800)
@@ -456,7 +493,7 @@ def c07(tier):
     # arbitrary TEXT: the TLA+ lexer + grammar (FMLLexer.ParseText) decide from the code points alone; corpus files, decorated and tightly spaced
     # printings, and character-level mutations (stray quotes, backslashes, comment openers, non-ASCII characters, deleted / swapped characters)
     import re as _re
-    xcases = [(p['name'], p['text']) for p in corp]
+    xcases = [(p['name'], p['text']) for p in corp] + edge_texts(rng, tier_sizes(tier, 400, 100000))
     for name, ast in asts[:tier_sizes(tier, 200, 4000)]:
         a = copy.deepcopy(ast)
         xcases.append(('decorated-text:' + name, unparse(a, rng=rng, decorate=0.6, full=(rng.random() < 0.3))))
